@@ -3,6 +3,7 @@ package main
 import (
 	"crypto/tls"
 	"fmt"
+	"github.com/hashicorp/go-hclog"
 	"net"
 	"sync"
 	"sync/atomic"
@@ -19,7 +20,7 @@ func init() {
 		Rule: "a dedicated race-detector suite (GORACE halt_on_error=0, reports counted in the log files, de-duplicated by stack pair with line numbers stripped, attributed by the innermost non-runtime/non-stdlib frame of either access): " +
 			"S1 pipelined concurrent handlers writing on one connection (plain/TLS/StartTLS, back-pressure); S2 parallel StartTLS upgrades with traffic before and after; S3 Run/Ready/Stop racing connect storms; " +
 			"S4 connection teardown of every kind with handlers in flight; S5 the test directory served by 8 clients doing bind/search/add/modify/delete while the harness calls SetUsers/SetGroups/SetControls/SetTokenGroups/" +
-			"SetAllowAnonymousBind and the getters; S6 the same without Set*; S7 StartTLS upgrades followed by Stop with no traffic over the upgraded session; S8 a request pipelined ahead of StartTLS whose slow handler answers after the upgrade; S9 fresh servers whose very first requests are unrouted and arrive concurrently (one segment, several connections). Routes are registered before Run. Each scenario is repeated; a self-test race in harness code proves the detector is live. " +
+			"SetAllowAnonymousBind and the getters; S6 the same without Set*; S7 StartTLS upgrades followed by Stop with no traffic over the upgraded session; S8 a request pipelined ahead of StartTLS whose slow handler answers after the upgrade; S9 fresh servers whose very first requests are unrouted and arrive concurrently (one segment, several connections); S10 handlers that answer one request from several goroutines through their one ResponseWriter. Every third repetition of every scenario runs with Debug-level server loggers. Routes are registered before Run. Each scenario is repeated; a self-test race in harness code proves the detector is live. " +
 			"distinct_nontrivial = distinct (scenario, repetition, GOMAXPROCS) executions that created concurrent gldap goroutines",
 		Assume: []string{"the race detector generalises each observed execution to every execution with the same synchronisation structure, and says nothing about code the workloads did not run",
 			"getter results are only len()-inspected by the harness: deep reads of shared entries after a getter are the caller's business"},
@@ -30,13 +31,13 @@ func init() {
 				procs = []string{"16", "4", "2"}
 			}
 			for _, p := range procs {
-				for _, s := range []string{"S1-writers", "S2-starttls", "S3-stop-storms", "S4-teardown", "S5-directory-set", "S6-directory", "S7-starttls-then-stop", "S8-inflight-across-starttls", "S9-unrouted-first-requests"} {
+				for _, s := range []string{"S1-writers", "S2-starttls", "S3-stop-storms", "S4-teardown", "S5-directory-set", "S6-directory", "S7-starttls-then-stop", "S8-inflight-across-starttls", "S9-unrouted-first-requests", "S10-fan-out-handlers"} {
 					ps = append(ps, Phase{Name: s + "-p" + p, Race: true, Run: c15Scenario, Env: map[string]string{"GOMAXPROCS": p}, Arg: s})
 				}
 			}
 			if tier == "thorough" {
 				// the same scenarios under a second Go runtime/scheduler (built by ./check with go1.26.8 when present)
-				for _, s := range []string{"S1-writers", "S2-starttls", "S3-stop-storms", "S4-teardown", "S5-directory-set", "S6-directory", "S7-starttls-then-stop", "S8-inflight-across-starttls", "S9-unrouted-first-requests"} {
+				for _, s := range []string{"S1-writers", "S2-starttls", "S3-stop-storms", "S4-teardown", "S5-directory-set", "S6-directory", "S7-starttls-then-stop", "S8-inflight-across-starttls", "S9-unrouted-first-requests", "S10-fan-out-handlers"} {
 					ps = append(ps, Phase{Name: s + "-go126", Race: true, Run: c15Scenario, Bin: "verif-race126", Env: map[string]string{"GOMAXPROCS": "16"}})
 				}
 			}
@@ -71,6 +72,12 @@ func c15Scenario(c *Ctx) {
 	pki := newPKI()
 	for rep := 0; rep < reps; rep++ {
 		r := c.Rng.Sub(fmt.Sprintf("rep%d", rep))
+		// every third repetition runs with Debug-level server loggers
+		harnessLogLevel = hclog.NoLevel
+		if rep%3 == 2 {
+			harnessLogLevel = hclog.Debug
+			c.Count("repetitions_with_debug_level_loggers", 1)
+		}
 		switch {
 		case hasPfx(arg, "S1"):
 			for _, tr := range []string{"plain", "tls", "starttls"} {
@@ -88,6 +95,10 @@ func c15Scenario(c *Ctx) {
 			c12Tails = nil
 		case hasPfx(arg, "S4"):
 			c08RunWith(c, 10, 1)
+		case hasPfx(arg, "S10"):
+			for round := 0; round < 4; round++ {
+				c15FanOut(c, round)
+			}
 		case hasPfx(arg, "S9"):
 			for round := 0; round < 12; round++ {
 				c15UnroutedFirst(c, round)
@@ -109,6 +120,63 @@ func c15Scenario(c *Ctx) {
 		c.Distinct("executions", fmt.Sprintf("%s/%d", arg, rep))
 	}
 	c.Sample(map[string]any{"scenario": arg, "repetitions": reps})
+}
+
+// c15FanOut: one handler answers its request from several goroutines through the one ResponseWriter it was given
+// (a search that fans out to back ends); several such requests are pipelined on a connection, several connections run.
+func c15FanOut(c *Ctx, round int) {
+	srv, err := startSrv(SrvCfg{}, func(m *gldap.Mux) {
+		m.Search(func(w *gldap.ResponseWriter, r *gldap.Request) {
+			var wg sync.WaitGroup
+			for g := 0; g < 4; g++ {
+				wg.Add(1)
+				go func(g int) {
+					defer wg.Done()
+					for i := 0; i < 6; i++ {
+						e := r.NewSearchResponseEntry(fmt.Sprintf("cn=e%d-%d", g, i))
+						e.AddAttribute("a", []string{"v"})
+						w.Write(e)
+					}
+				}(g)
+			}
+			wg.Wait()
+			w.Write(r.NewSearchDoneResponse(gldap.WithResponseCode(0)))
+		})
+	})
+	if err != nil {
+		c.Inconclusive("server start: " + err.Error())
+		return
+	}
+	var wg sync.WaitGroup
+	for k := 0; k < 2+round%2; k++ {
+		wg.Add(1)
+		go func() {
+			defer wg.Done()
+			cn, err := net.Dial("tcp", srv.Addr)
+			if err != nil {
+				return
+			}
+			defer cn.Close()
+			var buf []byte
+			for i := 0; i < 3; i++ {
+				buf = append(buf, sber.Message(int64(i+1), sber.Search{Base: []byte("dc=x"), Scope: 2, Filter: sber.PresentFilter("cn"), Attrs: [][]byte{}}.Node(), nil).Encode()...)
+			}
+			cn.Write(buf)
+			cl := wrapClient(cn)
+			for dones := 0; dones < 3; {
+				m, err := cl.ReadMsg(10 * time.Second)
+				if err != nil {
+					break
+				}
+				if m.Op.Tag == sber.AppSearchResultDone {
+					dones++
+				}
+			}
+		}()
+	}
+	wg.Wait()
+	srv.StopWithin(patience)
+	c.Count("fan_out_handler_rounds", 1)
 }
 
 // c15UnroutedFirst: the very first requests a fresh server ever sees have no route (no default route either) and are
